@@ -30,6 +30,7 @@ def run(P, R, tier):
     R.assume('S5: pandas merge(how=inner|left|right|outer) keeps unmatched rows of the left / right operand accordingly')
     f = P.func(MOD, '_sjoin_pandas_pandas')
     pairs(P, R, f)
+    reset_helper(P, R)
     chains(P, R, f)
     from rules import common as _common
     _common.forward(P, R, 'C02', ['C02.*'], 'C05.g', 'a pair is emitted iff the point intersects the shape (C02)', floor=10)
@@ -226,6 +227,37 @@ def fold(R, f, e, roles, merges):
             b['dropped'] = set(base['dropped']) | {norm(e.args[0])}
         return b
     return operand(f, e, roles)
+
+
+def reset_helper(P, R):
+    """C05.h  The pair table holds row POSITIONS (_key_left/_key_right); the frames they are merged with must therefore be indexed by position:
+    every return of _record_reset_index passes through reset_index, except under a guard that establishes that the labels already ARE the positions
+    (RangeIndex with start 0 AND step 1)."""
+    import cfg as cfgmod
+    g = P.func(MOD, '_record_reset_index')
+    C = cfgmod.build(g.node)
+    resets = [s for s in walk_own(g.node) if isinstance(s, (ast.Assign, ast.Expr)) and any(isinstance(c, ast.Call) and isinstance(c.func, ast.Attribute) and c.func.attr == 'reset_index'
+                                                                                         for c in ast.walk(s))]
+    R.floor('C05.h', 'reset_index statements in _record_reset_index', len(resets), 1)
+    rn = [C.node(s) for s in resets]
+    for ret in [s for s in walk_own(g.node) if isinstance(s, ast.Return)]:
+        if C.every_path_passes(C.ENTRY, C.node(ret), rn):
+            R.ok('C05.h', g, ret, 'the returned frame went through reset_index: its index is the row position the pair table refers to')
+            continue
+        # a bypass: acceptable only under a guard that proves labels == positions
+        guard = None
+        q = ret
+        while getattr(q, '_parent', None) is not None and q._parent is not g.node:
+            q = q._parent
+            if isinstance(q, ast.If):
+                guard = q.test
+        gt = norm(guard) if guard is not None else ''
+        full = guard is not None and 'RangeIndex' in gt and ('.start == 0' in gt or '.start == 0' in gt.replace('0 == ', '')) and '.step == 1' in gt
+        equals = guard is not None and '.equals(' in gt and 'RangeIndex(' in gt
+        R.check(full or equals, 'C05.h', g, ret, 'a return without reset_index is guarded by "the index is RangeIndex(0, n, 1)" (labels are the positions)',
+                f'`{norm(ret)}` is reached without reset_index under `{gt}`, which does not establish that the labels are the row positions '
+                '(a strided RangeIndex 0, k, 2k, ... passes): the positional pair keys are then merged against labels and pair up the wrong rows',
+                construct='return without reset_index')
 
 
 def chains(P, R, f):
